@@ -64,7 +64,7 @@ def run_gqr_edited(B, opt, L_first, L, A, N, s):
 
 def listing(rng, L, A):
     """the same region listed in another way: sorted, in rank order, descending, shuffled, or with repeats"""
-    form = ["sorted", "rank-order", "descending", "shuffled", "repeats"][int(rng.integers(0, 5))]
+    form = ["sorted", "rank-order", "descending", "shuffled", "repeats", "repeats"][int(rng.integers(0, 6))]
     if form == "sorted" or not L:
         return list(L), "sorted"
     if form == "rank-order":
@@ -167,6 +167,9 @@ def gen_region_case(rng, nmax=9, mmax=5, feasible_only=True, graded=0.0, tiny=0.
             tries += 1
         if not (s <= len(L) and N - s <= n - len(L)):
             L, s = [], 0
+    if rng.random() < 0.2:
+        # many exactly zero entries: pivot columns whose leading entry in the trailing block is exactly 0
+        B = np.where(rng.random(B.shape) < 0.4, 0.0, B)
     if rng.random() < tiny:
         # entries that are zero only up to round-off (1e-13 ... 1e-19 of the others): leading entries of pivot columns among them
         mask = rng.random(B.shape) < 0.35
